@@ -411,6 +411,42 @@ func TestC15(t *testing.T) {
 		}
 		ev.Exhaustive(fmt.Sprintf("all_trees_up_to_%d_nodes_by_bound_shapes_by_mode_by_tail", maxNodes), int64(i))
 	})
+	t.Run("deep_chains", func(t *testing.T) {
+		// documents nested far deeper than any generated tree: chains of arrays / objects of depth 40..300
+		b := ev.enum(t)
+		i := 0
+		for _, depth := range []int{40, 127, 128, 129, 130, 200, 300} {
+			for _, kind := range []string{"arr", "obj", "mixed"} {
+				open, close := "", ""
+				for d := 0; d < depth; d++ {
+					if kind == "arr" || (kind == "mixed" && d%2 == 0) {
+						open, close = open+"[", "]"+close
+					} else {
+						open, close = open+`{"a":`, "}"+close
+					}
+				}
+				doc := open + "7" + close
+				D := int64(depth)
+				for _, sh := range []WildCase{{Acc: "**", First: 0, Last: -1}, {Acc: "**", First: -1, Last: -1}, {Acc: "**", First: D, Last: D}, {Acc: "**", First: D - 1, Last: -1}, {Acc: "**", First: D + 1, Last: -1}, {Acc: "**", First: 126, Last: 131}, {Acc: "**", First: D / 2, Last: D}} {
+					for _, strict := range []bool{false, true} {
+						i++
+						if !mine(i) {
+							continue
+						}
+						c := sh
+						c.Strict, c.Doc = strict, doc
+						v, f := checkWildFacts(c)
+						ev.Eval(fmt.Sprintf("deep:%s:%d:%s", kind, depth, c.pathText()), true)
+						_ = f
+						if !b.Check("c15.wild", c, v) {
+							return
+						}
+					}
+				}
+			}
+		}
+		ev.Exhaustive("chains_of_depth_40_to_300_by_bound_shapes_by_mode", int64(i))
+	})
 	ev.rapidProp(t, "random", func(rt *rapid.T) {
 		doc := GenDoc(rt, DocCfg{MaxDepth: 5, Keys: []string{"a", "b", "c"}, MaxObj: 2, ScalarPct: 2}, "doc")
 		sh := wildShapes()[rapid.IntRange(0, len(wildShapes())-1).Draw(rt, "shape")]
